@@ -9,7 +9,10 @@ package main
 //   * `appFeeCalls`      – the calls in app/app.go (function `New` and the set*Handler helpers)
 //                          that install the router, the ante handler and the fee handler;
 //   * `invokeCalls`      – selected calls of MsgFeeInvoker.Invoke, in source order;
-//   * `deductCalls`      – selected calls of checkDeductBaseFee, in source order.
+//   * `deductCalls`      – selected calls of checkDeductBaseFee, in source order;
+//   * `recheckReaders`   – the functions of internal/antewrapper and internal/handlers that read
+//                          the mempool RECHECK flag (`IsReCheckTx`): the model treats a recheck
+//                          as a full repeat of the mempool check.
 
 import (
 	"fmt"
@@ -171,6 +174,28 @@ func emitFeeWiring(c *Ctx) (string, error) {
 		return "", fmt.Errorf("Invoke / checkDeductBaseFee not found")
 	}
 
+	// 5. who distinguishes a mempool recheck from a first check
+	var recheckReaders []string
+	for _, pk := range []struct {
+		name  string
+		files map[string]*ast.File
+	}{{"antewrapper", ante}, {"handlers", handlers}} {
+		for _, k := range sortedKeys(pk.files) {
+			for _, d := range pk.files[k].Decls {
+				fd, ok := d.(*ast.FuncDecl)
+				if !ok || fd.Body == nil {
+					continue
+				}
+				for _, n := range callsIn(c, fd.Body) {
+					if strings.HasSuffix(n, "IsReCheckTx") {
+						recheckReaders = append(recheckReaders, pk.name+":"+recvTypeName(fd)+"."+fd.Name.Name)
+						break
+					}
+				}
+			}
+		}
+	}
+
 	var sb strings.Builder
 	sb.WriteString("namespace Generated.FeeWiring\n\n")
 	fmt.Fprintf(&sb, "def anteDecorators : List String := %s\n\n", leanStrList(decorators))
@@ -186,6 +211,7 @@ func emitFeeWiring(c *Ctx) (string, error) {
 	fmt.Fprintf(&sb, "def invokeCalls : List String := %s\n\n", leanStrList(invokeCalls))
 	fmt.Fprintf(&sb, "def deductCalls : List String := %s\n\n", leanStrList(deductCalls))
 	fmt.Fprintf(&sb, "def feeHandlerCalls : List String := %s\n\n", leanStrList(feeHandlerCalls))
+	fmt.Fprintf(&sb, "/-- functions of the fee packages that read `ctx.IsReCheckTx()` -/\ndef recheckReaders : List String := %s\n\n", leanStrList(recheckReaders))
 	sb.WriteString("end Generated.FeeWiring\n")
 	return sb.String(), nil
 }
